@@ -11,11 +11,13 @@
   longer reachable from the plan's root: the members of a `Fused` node are looked up there, exactly
   as `Fused.exprs` keeps the member expressions alive.
 
-  Iteration order of Python `set`s.  `_fusion_pass` iterates `dependencies[next._name]`, a `set` of
-  strings, whose order is unspecified (it depends on `PYTHONHASHSEED`).  The order decides *which*
-  group is found (member order, and in corner cases membership), so the model takes it as a
-  parameter `ord : Nat → List Nat → List Nat` (node ↦ how its dependency set — given in insertion
-  order — is iterated).  Every theorem of Props/C14.lean holds for every `ord`.
+  Iteration order.  `_fusion_pass` iterates `sorted(dependencies[next._name])`: a `set` of name
+  strings in sorted order (before the fix "blockwise fusion visits the operands of a node in a
+  reproducible order" it iterated the set itself, whose order depends on `PYTHONHASHSEED`).  The
+  order decides *which* group is found (member order, and in corner cases membership).  Names are
+  hashes, so the model takes the order as a parameter `ord : Nat → List Nat → List Nat` (node ↦ how
+  its dependency set — given in insertion order — is iterated); the correspondence families pass the
+  string order of the real names.  Every theorem of Props/C14.lean holds for every `ord`.
   Dicts (`dependents`, `dependencies`) iterate in insertion order; that is modelled exactly.
 -/
 import DxModel.Graph
